@@ -3624,7 +3624,7 @@ FILES_CRW = [("RulesW", "packages/accounts/src/smart_account/mod.rs", []),
              ("RulesW", "packages/accounts/src/smart_account/storage.rs",
               ["get_context_rule", "validate_signers_and_policies", "validate_and_set_fingerprint",
                "remove_fingerprint", "update_context_rule_name", "update_context_rule_valid_until", "add_signer", "remove_signer",
-               "remove_context_rule", "get_context_rules_count", "add_context_rule"])]
+               "remove_context_rule", "get_context_rules_count", "add_context_rule", "add_policy", "remove_policy"])]
 STORE_CLM = {"Claims": {"Claim": (["Bytes32"], "IdClaim"), "ClaimsByTopic": (["u32"], "Vec<Bytes32>")}}
 STRUCTS_CLM = {"IdClaim": [("topic", "u32"), ("scheme", "u32"), ("issuer", "Address"), ("signature", "Bytes"), ("data", "Bytes"), ("uri", "Val")]}
 READS_CLM = {"Claims": {"current_contract_address": "Address",
